@@ -127,6 +127,8 @@ class Node:
     def __rtruediv__(self, o): return self._bin('div', o, True)
 
     def __neg__(self):
+        if self.op == 'neg' and not self.rg and not self.args[0].rg:
+            return self.args[0]  # -(-x) = x exactly (also in IEEE arithmetic); keeps times like -(-t1) canonical
         return Node('neg', (self,), rg=_grad_on() and self.rg, cv=None if self.cv is None else -self.cv,
                     kind=self.kind)
 
